@@ -36,6 +36,8 @@ pub fn pattern_matches_arguments(pattern: &Pattern, args: &Vec<Value>, env: &mut
       }
       Ok(true)
     }
+    // a bare wildcard arm matches any argument list
+    Pattern::Wildcard => Ok(true),
     _ => Ok(false),
   }
 }
